@@ -209,7 +209,35 @@ def e2e_jobs(tier, rnd):
                 name = f"dd{j}.json"; rf[name] = json.dumps({"results": [{"id": 100 + i, "title": title, "file_path": "code.py", "line": i + 2} for i in range(n) if assign[i] == j]}); names.append("{res}/" + name)
             jobs.append({"id": f"e2e|defectdojo|{assign}|{order}", "tool": "defectdojo", "n": n, "assign": assign, "kinds": ("results",) * k, "files": {"code.py": b64(dsrc)}, "src": dsrc, "result_files": rf,
                          "argv": ["{proj}", "--output", "{out}", "--codemod-include", "defectdojo:python/avoid-insecure-deserialization", "--defectdojo-findings-json", ",".join(names)], "monitors": {"snap": False, "pipe": True}, "marker": "pickle.load("})
+    # one SARIF file holding runs of several tools (a merged code-scanning export), every order: each tool must get the file, the Semgrep finding must be fixed
+    import itertools as _it
+    COOKIE = 'from django.shortcuts import render\ndef index(request, template):\n    r0 = render(request, template)\n    r0.set_cookie("name", "value")\n    return r0\n'
+    sem = {"tool": {"driver": {"name": "Semgrep OSS"}}, "results": [{"ruleId": "python.django.security.audit.secure-cookies.django-secure-set-cookie", "message": {"text": "m"},
+           "locations": [{"physicalLocation": {"artifactLocation": {"uri": "code.py"}, "region": {"startLine": 4, "endLine": 4, "startColumn": 5, "endColumn": 35, "snippet": {"text": '    r0.set_cookie("name", "value")'}}}}]}]}
+    cql = {"tool": {"driver": {"name": "CodeQL"}}, "results": [{"ruleId": "py/some-query", "message": {"text": "m"}, "locations": [{"physicalLocation": {"artifactLocation": {"uri": "code.py"}, "region": {"startLine": 2, "startColumn": 1, "endLine": 2, "endColumn": 4}}}]}]}
+    # CodeQL omits endLine when the region ends on its start line (SARIF default): legal, and foreign to the Semgrep reader
+    cql_min = {"tool": {"driver": {"name": "CodeQL"}}, "results": [{"ruleId": "py/some-query", "message": {"text": "m"}, "locations": [{"physicalLocation": {"artifactLocation": {"uri": "code.py"}, "region": {"startLine": 2, "startColumn": 1, "endColumn": 4}}}]}]}
+    other = {"tool": {"driver": {"name": "Bandit"}}, "results": [{"ruleId": "B101", "message": {"text": "m"}, "locations": [{"physicalLocation": {"artifactLocation": {"uri": "code.py"}, "region": {"startLine": 1, "startColumn": 1, "endLine": 1, "endColumn": 3}}}]}]}
+    runs = {"semgrep": sem, "codeql": cql, "other": other, "codeql-minimal-region": cql_min}
+    orders = [o for n_ in (1, 2, 3) for o in _it.permutations(("semgrep", "codeql", "other"), n_) if "semgrep" in o] + [("semgrep", "codeql-minimal-region"), ("codeql-minimal-region", "semgrep")]
+    for o in (orders if tier != "quick" else orders[:1] + rnd.sample(orders[1:-2], 5) + orders[-2:]):
+        jobs.append({"id": f"e2e|sarif-mixed-runs|{o}", "tool": "semgrep", "n": 1, "assign": (0,), "kinds": ("sarif",), "mixed": list(o), "files": {"code.py": b64(COOKIE)}, "src": COOKIE,
+                     "result_files": {"merged.sarif": json.dumps({"version": "2.1.0", "runs": [runs[k] for k in o]})},
+                     "argv": ["{proj}", "--output", "{out}", "--codemod-include", "semgrep:python/django-secure-set-cookie", "--sarif", "{res}/merged.sarif"], "monitors": {"snap": False, "pipe": True, "sarif_tools": True}, "marker": 'set_cookie("name", "value")'})
     return jobs
+
+def judge_mixed(job, run):
+    v = []; st = collections.Counter(); nt = [job["id"]]
+    w = {"case": job["id"], "runs_in_file": job["mixed"], "argv": job["argv"]}
+    after = unb(run["tree"]["code.py"][2:]).decode("utf-8", "replace")
+    st["e2e:sarif-mixed-runs"] += 1
+    ev = [e for e in run["trace"] if e["k"] == "sarif_tools"]
+    if ev:
+        got = {k: len(v_) for k, v_ in ev[0]["map"].items() if v_}
+        want = {k.split("-")[0]: 1 for k in job["mixed"] if k.split("-")[0] in ("semgrep", "codeql")}
+        if got != want: v.append(Violation("C12", "sarif-file-not-routed-to-every-tool/" + ">".join(job["mixed"]), f"one SARIF file with runs {job['mixed']} was filed under {got}, expected {want}", dict(w, routed=ev[0]["map"])))
+    if job["marker"] in after: v.append(Violation("C12", "e2e-site-unfixed/semgrep/mixed-tool-sarif", f"the Semgrep finding in a SARIF file with runs {job['mixed']} was not fixed", dict(w, after=after)))
+    return v, st, nt
 
 def judge(job, r):
     """end-to-end judge (also used by replay)"""
@@ -217,7 +245,10 @@ def judge(job, r):
     run = r["runs"][0]
     w = {"case": job["id"], "argv": job["argv"], "result_files": job["result_files"], "src": job["src"]}
     if run["rc"] != 0 or run["exc"]:
-        return [Violation("C12", f"e2e-run-failed/{job['tool']}", f"rc={run['rc']} exc={run['exc']}", dict(w, log=run["log"][-800:]))], st, nt
+        key = f"e2e-run-failed/{job['tool']}"
+        if "codeql-minimal-region" in (job.get("mixed") or []) and "KeyError" in str(run["exc"]): key = "e2e-foreign-run-breaks-semgrep-reader"
+        return [Violation("C12", key, f"rc={run['rc']} exc={run['exc']}", dict(w, log=run["log"][-800:]))], st, nt
+    if job.get("mixed"): return judge_mixed(job, run)
     after = unb(run["tree"]["code.py"][2:]).decode("utf-8", "replace")
     unfixed = [i for i in range(job["n"]) if any(l.startswith((f"v{i} = ", f"r{i} = ")) and job["marker"] in l for l in after.splitlines())]
     nt.append(job["id"]); st["e2e:" + job["tool"]] += 1
